@@ -111,21 +111,12 @@ func (e *Engine) rangeIter(x Value) Value {
 		return it
 	case Str:
 		it := &iter{kind: "str", s: x}
-		// decode lazily: precompute runes and offsets
-		rs := e.decodeRunes(x)
+		rs, sizes := e.decodeRunesSz(x)
 		it.rs = rs
 		off := 0
-		for _, r := range rs {
+		for k := range rs {
 			it.offs = append(it.offs, off)
-			if r.T != nil {
-				off++
-			} else {
-				n := len(string(rune(r.V)))
-				if rune(r.V) == 0xFFFD && !(off+3 <= x.Len() && x.isC() && x.S[off:off+3] == "�") {
-					n = 1
-				}
-				off += n
-			}
+			off += sizes[k]
 		}
 		return it
 	}
